@@ -351,6 +351,9 @@ fn strip_never_used(pl: &str) -> (String, usize) {
 ///  * `(SEVENBITSAFEFLAG TRUE)`: PLtoTF recomputes the flag (PLtoTF §133), b0 may understate it;
 ///  * if b0's header has fewer than the 18 standard words, PLtoTF fills in its defaults
 ///    (PLtoTF §70): `(FAMILY UNSPECIFIED)`, `(FACE F MRR)`, `(CODINGSCHEME UNSPECIFIED)`;
+///  * `(CHARHT R 0.0)`, `(CHARDP R 0.0)`, `(CHARIC R 0.0)`: b0 may reach the value zero through a
+///    non-zero index (a second zero in the table), which TFtoPL prints; b1 uses index 0, for which
+///    TFtoPL prints nothing (TFtoPL §80-§82). Same value;
 ///  * if PL1 reported unreachable lig/kern steps: an empty `(LIGTABLE )` on either side (b1 keeps
 ///    one word to carry a boundary character) - the comment itself and `(SKIP D 0)` are removed
 ///    from PL1 by `strip_never_used`.
@@ -359,6 +362,9 @@ fn pl_normal_form(pl: &str, had_never_used: bool, short_header: bool) -> String 
     for line in pl.split_inclusive('\n') {
         let t = line.trim_end_matches('\n');
         if t == "(SEVENBITSAFEFLAG TRUE)" {
+            continue;
+        }
+        if t == "   (CHARHT R 0.0)" || t == "   (CHARDP R 0.0)" || t == "   (CHARIC R 0.0)" {
             continue;
         }
         if short_header && (t == "(FAMILY UNSPECIFIED)" || t == "(FACE F MRR)" || t == "(CODINGSCHEME UNSPECIFIED)") {
